@@ -131,7 +131,7 @@ pub fn main_gen(args: &[String]) {
         let cred = rand_cred(&mut rng);
         let seal = rng.gen_range(0..8);     // bit0 sha1, bit1 sha256, bit2 fingerprint
         let by_ext = rng.gen_bool(0.5);
-        let trunc = if by_ext { *[16usize, 20, 24, 28, 32].choose(&mut rng).unwrap() } else { 32 };
+        let trunc = if by_ext { *[16usize, 20, 24, 28, 32, 32, 32, 12, 18, 36].choose(&mut rng).unwrap() } else { 32 };
         let bytes = if by_ext {
             let mut v = b.build();
             let key = cred.key();
